@@ -11,3 +11,13 @@ package packet
 //@ contract Decode
 //@   props C30
 //@   requires buf != nil
+
+// An LSP entries TLV (CSNP/PSNP) of n*16 bytes yields n entries, for every n up
+// to the 15 that fit a TLV: the remaining-length counter must not lose the high
+// bit of the length octet.
+//@ contract readLSPEntriesTLV
+//@   props C30
+//@   nonnil
+//@   ensures result1 == nil && tlvLength%16 == 0 ==> result0 != nil && len(result0.LSPEntries) == int(tlvLength)/16
+//@   loop 0 vars toRead uint8, pdu *LSPEntriesTLV
+//@   loop 0 invariant pdu != nil && verif_fresh(pdu) && (tlvLength%16 == 0 ==> toRead%16 == 0 && int(toRead)+16*len(pdu.LSPEntries) == int(tlvLength))
